@@ -25,7 +25,7 @@ RULE = (
 )
 ASSUMPTIONS = [
     "equality is byte-equality of the printed solution sequences and end conditions of the processes of one configuration",
-    "instances avoid constraints whose Z3 queries are known to hit Z3's own 500 ms timeout under load (that retry path consumes Python's random stream by design and would make the comparison depend on machine load)",
+    "a process in which Z3 answered 'unknown' within its own 500 ms budget (z3_solve then retries and consumes Python's random stream - load-dependent by design) is detected, counted and not compared",
     "the census whitelist is empty: census instances configure no timeout and no unsat support, so solver.py has no reason to read the clock",
 ]
 TASKS_PER_CHILD = 1
@@ -108,6 +108,11 @@ def run_chunk(chunk):
             outs.append(None)
     r.state("repro", chunk["name"], chunk["hashseed"], chunk["seed"])
     good = [o for o in outs if o is not None]
+    tainted = [o for o in good if "z3-unknown-retry" in o]
+    if tainted:
+        # Z3 hit its own time budget in that process (load-dependent by design, see ASSUMPTIONS): not comparable
+        r.caps["run_with_z3_unknown_retry_not_compared"] += len(tainted)
+        good = [o for o in good if "z3-unknown-retry" not in o]
     r.evals += len(good)
     r.transitions += sum(o.count("\n") for o in good)
     for o in good:
